@@ -8,6 +8,7 @@ import hashlib
 import importlib
 import json
 import os
+import re
 import shutil
 import subprocess
 import sys
@@ -73,6 +74,15 @@ class Item(object):
 
 
 def discharge(item, timeout_ms, second_opinion=False):
+    if item.extra.get('cover'):
+        # reachability check behind a set of hypotheses: an assertion that must FAIL.
+        # sat = the hypotheses are satisfiable (good); unsat = they are contradictory and every
+        # lemma stated under them would hold vacuously (checker defect, never "discharged")
+        body = list(item.assertions)
+        r, m, dt = Z.check(Z.relevant_axioms(body) + body, timeout_ms, want_model=False)
+        item.seconds, item.by = dt, 'z3-%s (cover)' % z3.get_version_string()
+        item.result = {'sat': 'discharged', 'unsat': 'vacuous', 'unknown': 'unknown'}[r]
+        return item
     if Z.is_true(item.goal):
         item.result, item.by, item.seconds = 'discharged', 'simplifier', 0.0
         return item
@@ -384,6 +394,9 @@ def finish(pc, props_mod):
     for it in pc.items:
         if it.result == 'discharged':
             by_backend[it.by] = by_backend.get(it.by, 0) + 1
+    for it in pc.items:
+        if it.result == 'vacuous':
+            pc.errors.append('vacuous hypotheses: cover obligation %s is unreachable' % it.clause)
     disagree = [it for it in pc.items if it.result == 'disagree']
     if disagree:
         pc.errors.append('solvers disagree on %s' % [d.clause for d in disagree])
@@ -448,6 +461,12 @@ def finish(pc, props_mod):
                 except Exception as e:
                     rep['search_error'] = repr(e)
             in_baseline = baseline is not None and clause in baseline
+            own = getattr(props_mod, 'OWN', None)
+            if in_baseline and own is not None and not any(re.search(rx, clause) for rx in own):
+                # a proof-support clause shared with other properties: its failure breaks this
+                # property's proof but is not by itself a violation of this property
+                in_baseline = False
+                rep['support_clause'] = True
             fn = 'replays/%s-%s.json' % (pid, hashlib.sha1(clause.encode()).hexdigest()[:10])
             with open(os.path.join(HERE, fn), 'w') as f:
                 json.dump(rep, f, indent=1, default=str)
@@ -456,7 +475,7 @@ def finish(pc, props_mod):
             elif in_baseline:
                 violations.append((clause, fn, False))
             else:
-                undecided.append(('clause %s refuted but neither reproduced natively nor in the baseline' % clause, it.lineno, it.func))
+                undecided.append(('clause %s refuted but %s' % (clause, 'it is a proof-support clause shared with other properties and this property\'s native oracle found no failing input' if rep.get('support_clause') else 'neither reproduced natively nor in the baseline'), it.lineno, it.func))
         else:
             it = a['unknown'][0]
             undecided.append(('clause %s: solver %s (%s)' % (clause, it.result, it.extra.get('reason_unknown', '')), it.lineno, it.func))
